@@ -231,6 +231,30 @@ func (c *fctx) rangeStmt() []*S {
 			loop.E = &X{K: XCall, Name: "mks", Args: []*X{size()}}
 		}
 	case "array":
+		if r.Chance(1, 6) {
+			// an array of STRUCTS ranged with a value variable whose only writes are writes to a
+			// FIELD of an element (plain, op-assign, inc/dec, through the element's address):
+			// the loop still iterates over the copy taken when it started
+			id := c.g.id()
+			name := fmt.Sprintf("sarr%d", id)
+			j := "(i9 + 1) % 3"
+			wr := []string{
+				fmt.Sprintf("%s[%s].f = p9.f + 100", name, j),
+				fmt.Sprintf("%s[%s].f += 100 + i9", name, j),
+				fmt.Sprintf("%s[%s].f++", name, j),
+				fmt.Sprintf("(&%s[%s]).f = p9.g * 7", name, j),
+				fmt.Sprintf("%s[%s].in.h = p9.f + 50", name, j),
+			}[r.Intn(5)]
+			y := ""
+			if c.gen && !c.inLit {
+				y = "\t«Yield»(p9.f*10 + p9.in.h + i9)\n"
+			}
+			order := []string{"%[1]s\t%[2]s\n", "\t%[2]s\n%[1]s"}[r.Intn(2)]
+			text := fmt.Sprintf("%[1]s := [3]struct {\n\tf, g int\n\tin struct{ h int }\n}{{f: %[2]s, g: 1}, {f: %[3]s, g: 2}, {f: 30, g: 3}}\nfor i9, p9 := range %[1]s {\n\tvrt.E(%[4]d, p9.f+p9.in.h)\n"+strings.ReplaceAll(fmt.Sprintf(order, y, wr), "%", "%%")+"\tvrt.E(%[5]d, p9.f+p9.g+p9.in.h)\n}\nvrt.E(%[6]d, %[1]s[0].f+%[1]s[1].f*3+%[1]s[2].f*5+%[1]s[0].in.h)",
+				name, c.pure(1).str(Mode{}), c.pure(1).str(Mode{}), c.g.nextTag(), c.g.nextTag(), c.g.nextTag())
+			c.g.mark("range_array_of_structs_written_by_element_field_only")
+			return []*S{{K: SRaw, ID: id, Src: text}}
+		}
 		coll = c.fresh([]string{"arr", "arr2"})
 		pre = append(pre, &S{K: SDecl, ID: c.g.id(), Name: coll, E: &X{K: XRaw, S: fmt.Sprintf("[3]int{%s, %s, 30}", c.pure(1).str(Mode{}), c.pure(1).str(Mode{}))}})
 		c.sc.declare(coll, vArr)
